@@ -220,8 +220,9 @@ func genC04(g *Gen, tier string, w *bufio.Writer) {
 		}
 	}
 	emitted := 0
+	every := (nplan + nq) / nq // the (slow) behavioural ops are spread evenly over the output
 	for i := 0; emitted < nplan+nq && i < 20*(nplan+nq); i++ {
-		behavioural := emitted >= nplan
+		behavioural := emitted%every == every-1
 		fileFmt := Pick(g, []string{"csv", "csv", "json"})
 		ntab := 1 + g.Intn(3)
 		var tables []jtable
